@@ -491,6 +491,7 @@ private:
 
 	bool isMechanismPermitted(OSObject* key, CK_MECHANISM_PTR pMechanism);
 	void prepareSupportedMecahnisms(std::map<std::string, CK_MECHANISM_TYPE> &t);
+	bool isMechanismEnabled(CK_MECHANISM_TYPE mechanism);
 	bool detectFork(void);
 };
 
